@@ -861,23 +861,38 @@ theorem setRightSwapped_witness :
   simp [toBC, setupDefaults, dfill, setRightBoundaryConditionSwapped, setRightBoundaryCondition, setBoundaryCondition,
         TypeArg.toBC?, BCStore.empty, dset]
 
-/-- **DiffusionModel.setBC with an element** writes both sides of that key and no other key -/
+/-- **DiffusionModel.setBC** writes both sides of the key of the named element — of the FIRST independent element when
+called without `element` — and no other key -/
 theorem setBC_writes_both (s : BCStore α) (lt rt : TypeArg) (lty rty : BCType) (hl : lt.toBC? = some lty)
     (hr : rt.toBC? = some rty) (lv rv : α) (k : Key) :
     (setBC s lt lv rt rv k).2 = false ∧
-    (setBC s lt lv rt rv k).1.ltype k = some lty ∧ (setBC s lt lv rt rv k).1.lval k = some lv ∧
-    (setBC s lt lv rt rv k).1.rtype k = some rty ∧ (setBC s lt lv rt rv k).1.rval k = some rv ∧
-    ∀ j, j ≠ k → (setBC s lt lv rt rv k).1.ltype j = s.ltype j ∧ (setBC s lt lv rt rv k).1.lval j = s.lval j ∧
-                 (setBC s lt lv rt rv k).1.rtype j = s.rtype j ∧ (setBC s lt lv rt rv k).1.rval j = s.rval j := by
+    (setBC s lt lv rt rv k).1.ltype (elementKey k) = some lty ∧ (setBC s lt lv rt rv k).1.lval (elementKey k) = some lv ∧
+    (setBC s lt lv rt rv k).1.rtype (elementKey k) = some rty ∧ (setBC s lt lv rt rv k).1.rval (elementKey k) = some rv ∧
+    ∀ j, j ≠ elementKey k →
+      (setBC s lt lv rt rv k).1.ltype j = s.ltype j ∧ (setBC s lt lv rt rv k).1.lval j = s.lval j ∧
+      (setBC s lt lv rt rv k).1.rtype j = s.rtype j ∧ (setBC s lt lv rt rv k).1.rval j = s.rval j := by
   unfold setBC
   rw [setBoundaryCondition_left s lt lty hl]
   simp only [Bool.false_eq_true, if_false]
   rw [setBoundaryCondition_right _ rt rty hr]
   refine ⟨rfl, by simp [dset], by simp [dset], by simp [dset], by simp [dset], fun j hj => by simp [dset, hj]⟩
 
+/-- **setBC without element = setBC for the first independent element** (the repaired code) -/
+theorem setBC_none_first (s : BCStore α) (lt rt : TypeArg) (lv rv : α) :
+    setBC s lt lv rt rv none = setBC s lt lv rt rv (some 0) := rfl
+
+/-- … so the mesh code reads it for element 0 -/
+theorem setBC_none_read (s : BCStore α) (lt rt : TypeArg) (lty rty : BCType) (hl : lt.toBC? = some lty)
+    (hr : rt.toBC? = some rty) (lv rv : α) :
+    (toBC (setBC s lt lv rt rv none).1 0).ltype = lty ∧ (toBC (setBC s lt lv rt rv none).1 0).lval = lv ∧
+    (toBC (setBC s lt lv rt rv none).1 0).rtype = rty ∧ (toBC (setBC s lt lv rt rv none).1 0).rval = rv := by
+  obtain ⟨_, h1, h2, h3, h4, _⟩ := setBC_writes_both s lt rt lty rty hl hr lv rv none
+  simp only [elementKey] at h1 h2 h3 h4
+  simp [toBC, h1, h2, h3, h4]
+
 /-- setBC with a valid left and an invalid right type raises AFTER the left entry was written -/
 theorem setBC_right_invalid (s : BCStore α) (lt : TypeArg) (lty : BCType) (hl : lt.toBC? = some lty) (lv rv : α) (k : Key) :
-    (setBC s lt lv .invalid rv k).2 = true ∧ (setBC s lt lv .invalid rv k).1.ltype k = some lty ∧
+    (setBC s lt lv .invalid rv k).2 = true ∧ (setBC s lt lv .invalid rv k).1.ltype (elementKey k) = some lty ∧
     (setBC s lt lv .invalid rv k).1.rtype = s.rtype ∧ (setBC s lt lv .invalid rv k).1.rval = s.rval := by
   unfold setBC
   rw [setBoundaryCondition_left s lt lty hl]
@@ -910,16 +925,23 @@ theorem setupDefaults_present (E : Nat) (s : BCStore α) (e : Nat) (he : e < E) 
   · cases s.rtype (some e) <;> rfl
   · cases s.rval (some e) <;> rfl
 
-/-- **`DiffusionModel.setBC` called without `element`** (the default `None` is passed on as the dictionary key):
-FALSE of the specification "applies to the first independent element" — whatever was entered, no element of the
-model reads it.  (`setBC_writes_both` is the partial statement: an element is given.) -/
-theorem setBC_none_ignored (s : BCStore α) (lt rt : TypeArg) (lv rv : α) (e : Nat) :
-    (toBC (setBC s lt lv rt rv none).1 e).ltype = (toBC s e).ltype ∧
-    (toBC (setBC s lt lv rt rv none).1 e).lval = (toBC s e).lval ∧
-    (toBC (setBC s lt lv rt rv none).1 e).rtype = (toBC s e).rtype ∧
-    (toBC (setBC s lt lv rt rv none).1 e).rval = (toBC s e).rval := by
+/-- **the code before the repair (1d38457): `DiffusionModel.setBC` called without `element`** passed the default `None`
+on as the dictionary key: whatever was entered, NO element of the model reads it. -/
+theorem setBCUnrepaired_none_ignored (s : BCStore α) (lt rt : TypeArg) (lv rv : α) (e : Nat) :
+    (toBC (setBCUnrepaired s lt lv rt rv none).1 e).ltype = (toBC s e).ltype ∧
+    (toBC (setBCUnrepaired s lt lv rt rv none).1 e).lval = (toBC s e).lval ∧
+    (toBC (setBCUnrepaired s lt lv rt rv none).1 e).rtype = (toBC s e).rtype ∧
+    (toBC (setBCUnrepaired s lt lv rt rv none).1 e).rval = (toBC s e).rval := by
   cases lt <;> cases rt <;>
-    simp [toBC, setBC, setBoundaryCondition, TypeArg.toBC?, dset]
+    simp [toBC, setBCUnrepaired, setBoundaryCondition, TypeArg.toBC?, dset]
+
+/-- concrete witness (ℚ): "left node fixed at 3/10" entered by `setBC(COMPOSITION_BC, 3/10, FLUX_BC, 0)` on a fresh
+object: the unrepaired code leaves element 0 closed on the left, the repaired code pins it. -/
+theorem setBCUnrepaired_witness :
+    (toBC (setBCUnrepaired (BCStore.empty : BCStore ℚ) .comp (3/10) .flux 0 none).1 0).ltype = .flux ∧
+    (toBC (setBC (BCStore.empty : BCStore ℚ) .comp (3/10) .flux 0 none).1 0).ltype = .comp ∧
+    (toBC (setBC (BCStore.empty : BCStore ℚ) .comp (3/10) .flux 0 none).1 0).lval = 3/10 := by
+  simp [toBC, setBC, setBCUnrepaired, setBoundaryCondition, TypeArg.toBC?, BCStore.empty, dset, elementKey]
 
 /-! #### op sequences: an entry stays until a later call writes the same (side, key) -/
 
@@ -1101,7 +1123,11 @@ example (s' : BCStore ℚ) : (applyOp s' (.setRight .comp (3/10) (some 0))).1.rt
   simp [applyOp, setRightBoundaryCondition, setBoundaryCondition, TypeArg.toBC?, dset]
 example (s' : BCStore ℚ) : (applyOp s' (.setBC .flux 0 .flux (1/7) (some 1))).1.rtype (some 1) = some .flux ∧
     (applyOp s' (.setBC .flux 0 .flux (1/7) (some 1))).1.rval (some 1) = some (1/7) := by
-  simp [applyOp, setBC, setBoundaryCondition, TypeArg.toBC?, dset]
+  simp [applyOp, setBC, setBoundaryCondition, TypeArg.toBC?, dset, elementKey]
+/-- … and by setBC without element, for the first independent element -/
+example (s' : BCStore ℚ) : (applyOp s' (.setBC .flux 0 .comp (1/7) none)).1.rtype (some 0) = some .comp ∧
+    (applyOp s' (.setBC .flux 0 .comp (1/7) none)).1.rval (some 0) = some (1/7) := by
+  simp [applyOp, setBC, setBoundaryCondition, TypeArg.toBC?, dset, elementKey]
 example : (BCOp.setLeft .comp (1/5 : ℚ) (some 0)).writesRight (some 0) = false := rfl
 /-- a configuration whose conditions come from the entry points -/
 example : ∃ cfg : Cfg ℚ, 1 ≤ cfg.N ∧
